@@ -1622,3 +1622,31 @@ package ion
 //@ ensures[C14] specDecDigits(d) <= precision ==> result == d
 //@ ensures[C14] specDecDigits(d) > precision ==> specDecWF(result) && int64(result.scale) == int64(d.scale)-int64(specDecDigits(d)-precision)
 //@ ensures[C14] specDecDigits(d) > precision ==> specBigEq(result.n, specDecLeading(d, precision))
+
+// ---------------------------------------------------------------------------
+// readlocalsymboltable.go: how one import declaration is resolved (C10). The clauses name
+// the function's locals (declared name, version and max_id as read from the stream, and
+// the table found so far) with their values at the call.
+
+//@ interface Catalog.FindExact
+//@ pure
+//@ interface Catalog.FindLatest
+//@ pure
+//@ interface SharedSymbolTable.Adjust
+//@ pure
+//@ ensures result != nil
+
+//@ func readImport
+//@ split returns
+//@ requires r != nil
+//@ modifies *
+//@ invariant loop0 true
+//@ atcall[C10] Catalog.FindExact :: Catalog, string, int :: [name string, version int] a0 == cat && a1 == name && a2 == version && version >= 1 && name != "" && name != "$ion"
+//@ atcall[C10] Catalog.FindLatest :: Catalog, string :: [name string, version int] a0 == cat && a1 == name && cat.FindExact(name, version) == nil
+//@ atcall[C10] SharedSymbolTable.MaxID :: SharedSymbolTable :: [imp SharedSymbolTable, version int, maxID int64] maxID < 0 && a0 == imp && imp != nil && imp.Version() == version
+//@ atcall[C10] SharedSymbolTable.Adjust :: SharedSymbolTable, uint64 :: [imp SharedSymbolTable, version int, maxID int64] a0 == imp && a1 == uint64(maxID) && (maxID >= 0 || imp.Version() == version)
+//@ ensures[C10] err == nil && result != nil && cat == nil ==> vcIsBogusSST(result)
+//@ ensures[C10] err == nil && result != nil && cat == nil ==> vcAsBogusSST(result).version >= 1
+//@ ensures[C10] err == nil && result != nil && cat == nil ==> vcAsBogusSST(result).name != ""
+//@ ensures[C10] err == nil && result != nil && cat == nil ==> vcAsBogusSST(result).name != "$ion"
+//@ safe[C06,C10]
